@@ -371,8 +371,16 @@ Definition T0 : Z := 1000000.
 Definition ex_fresh_blob : O.blob := ex_blob (T0 - 100) (T0 + 900).   (* refresh time T0 + 400 *)
 Definition ex_old_blob : O.blob := ex_blob (T0 - 900) (T0 - 100).
 Definition ex_cert2 : O.cert := O.Cert 1 1 7 (T0 + 5000) 10000 true true.
-Definition ex_env : C.env := C.Env [] [] None true.
-Definition ex_opts : C.opts := C.Opts 0 true true 0 [].
+(** the environment without faults, cancellation or kill, and the options "no interval, clean
+    staples and certificates, no grace": built field by field from the field TYPES (every list
+    empty, every option None, every flag true, every number 0), so that the definitions survive new
+    fields of [C.env] / [C.opts] *)
+Definition ex_env : C.env :=
+  ltac:(constructor; first [exact (@nil _) | exact (@None _) | exact true]).
+Definition ex_opts : C.opts :=
+  ltac:(constructor; first [exact 0%Z | exact true | exact (@nil _)]).
+Example ex_env_no_faults : CE.no_faults ex_env /\ C.do_ocsp ex_opts = true /\ (C.interval ex_opts <= 0)%Z.
+Proof. unfold CE.no_faults. repeat split; first [reflexivity | discriminate | lia]. Qed.
 Definition ex_store (b : O.blob) : C.store := [(ex_key, C.File 1 (cls_of b))].
 
 Example ex_key_string : ex_key = [111; 99; 115; 112; 47; 97; 45; 49; 102]%N.
@@ -389,12 +397,41 @@ Proof.
   split; [intros [H|[H|[]]]; discriminate|]. vm_compute. repeat split; reflexivity.
 Qed.
 
+(** the same for EVERY environment (the theorem, not a computation) *)
+Example ex_reusable_any_env : forall e o clk, (forall i, clk i <= T0) ->
+  C.file (C.sto (snd (C.clean e o clk (ex_store ex_fresh_blob)))) ex_key = Some (1, cls_of ex_fresh_blob).
+Proof.
+  intros e o clk Hclk.
+  rewrite (reusable_survives_clean e o clk (ex_store ex_fresh_blob) ex_key 1 (cls_of ex_fresh_blob) ex_cert2 ex_fresh_blob T0).
+  - reflexivity.
+  - exists [97; 45; 49; 102]%N. split; vm_compute; reflexivity.
+  - reflexivity.
+  - apply reads_cls_of.
+  - vm_compute. reflexivity.
+  - exact Hclk.
+Qed.
+
 (** hypotheses of [cleaned_staple_not_missed]: the old staple is removed by the run *)
 Example ex_cleaned_hyps :
   C.file (ex_store ex_old_blob) ex_key = Some (1, cls_of ex_old_blob) /\
   C.file (C.sto (snd (C.clean ex_env ex_opts (fun _ => T0) (ex_store ex_old_blob)))) ex_key = None /\
   O.reusable ex_cert2 T0 (Some ex_old_blob) = false.
 Proof. vm_compute. repeat split; reflexivity. Qed.
+
+(** the same for every fault-free environment and every clock at or after T0 (C18's effectiveness theorem) *)
+Example ex_cleaned_any_env : forall e clk, CE.no_faults e -> (forall i, T0 <= clk i) ->
+  C.lookup (C.sto (snd (C.clean e ex_opts clk (ex_store ex_old_blob)))) ex_key = None.
+Proof.
+  intros e clk Hnf Hclk.
+  apply (CE.stale_staples_removed e ex_opts clk (ex_store ex_old_blob) ex_key 1 (cls_of ex_old_blob) Hnf).
+  - reflexivity.
+  - vm_compute. discriminate.
+  - intros v' c'. vm_compute. discriminate.
+  - exists [97; 45; 49; 102]%N. split; vm_compute; reflexivity.
+  - reflexivity.
+  - intros i. unfold C.spec_stale. cbn. apply Z.ltb_lt. specialize (Hclk i). unfold T0 in *. lia.
+  - vm_compute. reflexivity.
+Qed.
 
 (** hypotheses of [expired_cert_staple_ignored]: certificate expired at T0 - 1, staple fresh and current *)
 Example ex_expired_cert_hyps :
